@@ -355,10 +355,19 @@ impl Session {
                     });
                     match res {
                         Ok(()) => {}
-                        Err(TestError::Fail(_, _)) | Err(TestError::Abort(_)) => {
+                        Err(e) => {
                             if let Some(f) = last_fail.borrow_mut().take() {
                                 self.note_failure(f);
                                 self.stop.store(true, Ordering::SeqCst);
+                            } else {
+                                // the runner gave up without a failure of the property: a panic in the
+                                // harness's own code (proptest catches it) or an abort - the shard's
+                                // remaining cases were not run, which must not pass for a clean run
+                                let why = match &e {
+                                    TestError::Fail(r, _) => format!("{}", r),
+                                    TestError::Abort(r) => format!("{}", r),
+                                };
+                                self.inconclusive(format!("stage '{}' shard {}: the case runner stopped early without a property failure (harness fault?): {}", name, shard, why.chars().take(300).collect::<String>()));
                             }
                         }
                     }
